@@ -196,7 +196,7 @@ func c08holdsAny(f *ssa.Function, atoms ...core.Atom) []core.Edge {
 
 func c08(r *core.Run) {
 	p := r.P
-	r.Explanation = "Decides on the current source: (Go side of the period limiter) TakeCtx evaluates the periodScript constant with KEYS = [keyPrefix+key] and ARGV positions that the script itself (parsed) reads as the limit and the window, fed with quota and calcExpireSeconds(); script replies 0/1/2 map to OverQuota/Allowed/HitQuota and nothing else yields a nil error; calcExpireSeconds ≡ period − (unix+zoneOffset) mod period under align, else period. (Lua, parsed from the constants) the period script increments KEYS[1] by 1, sets the expiry only when the counter is 1, and answers 1 below the limit, 2 at the limit, 0 above; the token script refills min(capacity, last + max(0, now − ts)·rate), grants iff filled ≥ requested, debits only when granted, re-sets both keys with the same ttl and stores max(now, ts) as the new refill time (never older than the one read); its ARGV roles are fed with rate, burst, now.Unix(), n and its KEYS with the token and timestamp keys. (Fallback) the in-process limiter answers iff redisAlive is 0 or Redis failed with an error other than redis.Nil / a context error of a caller whose own context is done (an error matching DeadlineExceeded/Canceled while ctx.Err() is nil - a dial/IO timeout - is an outage and falls back), in which case the monitor is started first; redisAlive goes to 0 only in startMonitor before the monitor goroutine is spawned, once (monitorStarted under rescueLock), and back to 1 only after Ping() succeeded; the rescue limiter is built from the same burst and exactly the same rate (Limit(rate), not an interval rounded to nanoseconds)."
+	r.Explanation = "Decides on the current source: (Go side of the period limiter) TakeCtx evaluates the periodScript constant with KEYS = [keyPrefix+key] and ARGV positions that the script itself (parsed) reads as the limit and the window, fed with quota and calcExpireSeconds(); script replies 0/1/2 map to OverQuota/Allowed/HitQuota and nothing else yields a nil error; calcExpireSeconds ≡ period − (unix+zoneOffset) mod period under align, else period. (Lua, parsed from the constants) the period script increments KEYS[1] by 1, sets the expiry only when the counter is 1, and answers 1 below the limit, 2 at the limit, 0 above; the token script refills min(capacity, last + max(0, now − ts)·rate), grants iff filled ≥ requested, debits only when granted, re-sets both keys with the same ttl and stores max(now, ts) as the new refill time (never older than the one read); its ARGV roles are fed with rate, burst, now.Unix(), n and its KEYS with the token and timestamp keys. (Fallback) the in-process limiter answers iff redisAlive is 0 or Redis failed with an error other than redis.Nil / a context error of a caller whose own context is done (an error matching DeadlineExceeded/Canceled while ctx.Err() is nil - a dial/IO timeout - is an outage and falls back), in which case the monitor is started first; whether the caller's context is done is judged by a ctx.Err() read after the evaluation returned (a context that ends during the round trip is the caller's own error, not an outage); redisAlive goes to 0 only in startMonitor before the monitor goroutine is spawned, once (monitorStarted under rescueLock), and back to 1 only after Ping() succeeded; the rescue limiter is built from the same burst and exactly the same rate (Limit(rate), not an interval rounded to nanoseconds)."
 	r.NotDecided = "admission counts over time and call histories, Redis' TTL behaviour, atomicity of script evaluation, outage patterns; Lua semantics beyond the parsed subset (numbers vs strings coercion by tonumber is trusted)."
 	r.Trusted = append(r.Trusted, "a 300-line parser for the Lua subset used by the two scripts (local, assignment, if/elseif/else, calls, arithmetic, comparison, return); unknown syntax → unresolved")
 
@@ -946,6 +946,7 @@ func c08(r *core.Run) {
 			o.Fail(p.InstrPos(wv), "the verdict path is reachable with err != nil")
 		}
 	})
+	c08r9(r, reserve, startMon, lim) // D4/K2/ctx-state-read-after-eval (seeding round 7)
 	r.Check("D4/K3/monitor-once-and-ordered", "startMonitor: redisAlive is set to 0 and the waitForRedis goroutine is spawned only when monitorStarted was false, after monitorStarted = true, and the store of 0 precedes the spawn; monitorStarted is accessed only under rescueLock; redisAlive is written nowhere else to 0", func(o *core.O) {
 		if !o.Need(startMon != nil, "TokenLimiter.startMonitor") || !o.Need(lim.has("redisAlive", "monitorStarted", "rescueLock"), "the limiter's redisAlive / monitorStarted / rescueLock fields") {
 			return
